@@ -177,6 +177,10 @@ def check_round(case, state):
         require(pa.shape == (len(idx),) and close(pa.real, psi.real[idx], 1e-12, 1e-300) and close(pa.imag, psi.imag[idx], 1e-12, 1e-300),
                 "callform:dtype", f"psi of a {dt} sample tensor differs from psi of the same states in float64")
         require(close(state.probability(alt).double(), prob[idx], 1e-12), "callform:dtype-prob", f"probability of a {dt} sample tensor differs")
+        for Zform in (Z, float(Z)):
+            pz = state.probability(alt, Zform).double()
+            require(close(pz, prob[idx] / Z, 1e-7 if dt == torch.float32 else 1e-12), "callform:dtype-prob-normalised",
+                    f"normalised probability of a {dt} sample tensor (Z given as {type(Zform).__name__}) differs from probability/Z")
     k = case["row"]
     v1 = space[k]
     p1 = state.psi(v1)
